@@ -15,6 +15,7 @@ import itertools
 import re
 
 from ..astutil import AnalysisError, dotted, src, walk_local
+from .. import pattern as P
 
 VH = "cohdl/_compiler/backend/vhdl/_vhdl_repr.py"
 KINDS = ("U", "S", "BV")
@@ -28,8 +29,10 @@ class Reject(Exception):
 
 
 class _Eval:
-    def __init__(self, vt, t, v, rel):
-        self.kind = {"vhdl_target_type": vt, "target_type": t, "value_type": v}
+    def __init__(self, vt, t, v, rel, names=None):
+        n = names or {"vtt": "vhdl_target_type", "tt": "target_type", "vt": "value_type"}
+        self.n = n
+        self.kind = {n["vtt"]: vt, n["tt"]: t, n["vt"]: v}
         self.rel = rel
         self.value_str = "V"
         self.asserts = []
@@ -62,9 +65,9 @@ class _Eval:
                 return False  # run-time values are qualified objects, never literals
         if isinstance(e, ast.Compare) and len(e.ops) == 1:
             l, r = dotted(e.left), dotted(e.comparators[0])
-            if {l, r} == {"target_type.width", "value_type.width"}:
+            if {l, r} == {self.n["tt"] + ".width", self.n["vt"] + ".width"}:
                 op = e.ops[0]
-                if l == "value_type.width":
+                if l == self.n["vt"] + ".width":
                     flip = {ast.Lt: ast.Gt, ast.LtE: ast.GtE, ast.Gt: ast.Lt, ast.GtE: ast.LtE, ast.Eq: ast.Eq, ast.NotEq: ast.NotEq}
                     op = flip[type(op)]()
                 table = {
@@ -87,9 +90,9 @@ class _Eval:
                 d = dotted(part.value)
                 if d == "value_str":
                     out += self.value_str
-                elif d == "target_type.width":
+                elif d == self.n["tt"] + ".width":
                     out += "TW"
-                elif d == "value_type.width":
+                elif d == self.n["vt"] + ".width":
                     out += "VW"
                 else:
                     raise AnalysisError(f"format_cast: unsupported template field {src(part.value)}")
@@ -179,11 +182,24 @@ def backend(idx):
     f = mod.func("VhdlScope.format_cast")
     block = None
     node = None
+    # the three type variables, whatever they are called: decayed type of the target / of the value, and the
+    # VHDL type of the target's root (initialised with the target type)
+    names = {}
+    for _n, b in P.find(f.node.body, "__x = type(TypeQualifier.decay(target))"):
+        names["tt"] = b["__x"]
+    for _n, b in P.find(f.node.body, "__x = type(TypeQualifier.decay(value))"):
+        names["vt"] = b["__x"]
+    for st in f.node.body:
+        if isinstance(st, ast.Assign) and isinstance(st.value, ast.Name) and st.value.id == names.get("tt") and isinstance(st.targets[0], ast.Name):
+            names["vtt"] = st.targets[0].id
+    if set(names) != {"tt", "vt", "vtt"}:
+        raise AnalysisError(f"format_cast: prologue defining the target / value / root types not recognised ({names})")
+    tt = names["tt"]
     for s in f.node.body:
-        if isinstance(s, ast.If) and "issubclass(target_type, Bit)" in src(s.test):
+        if isinstance(s, ast.If) and f"issubclass({tt}, Bit)" in src(s.test):
             node = s
     while isinstance(node, ast.If):
-        if src(node.test) == "issubclass(target_type, BitVector)":
+        if src(node.test) == f"issubclass({tt}, BitVector)":
             block = node
             break
         node = node.orelse[0] if len(node.orelse) == 1 and isinstance(node.orelse[0], ast.If) else None
@@ -192,7 +208,7 @@ def backend(idx):
     res = {}
     for vt, t, v in itertools.product(KINDS, KINDS, KINDS):
         for rel in RELS:
-            ev = _Eval(vt, t, v, rel)
+            ev = _Eval(vt, t, v, rel, names)
             try:
                 out = ev.run(block.body)
                 if out is None:
@@ -203,6 +219,7 @@ def backend(idx):
                 res[(vt, t, v, rel)] = ("ok", out, k, w, ext)
             except Reject as r:
                 res[(vt, t, v, rel)] = ("reject", str(r))
+    block._cast_names = names
     return mod, block, res
 
 
@@ -245,7 +262,7 @@ def front_branches(fn: ast.AST, own: str):
     out = []
 
     def classify(test):
-        t = src(test)
+        t = P.T(test)
         if f'hasattr({p}, "_is_signed")' in t.replace("'", '"'):
             return "S"
         if f'hasattr({p}, "_is_unsigned")' in t.replace("'", '"'):
@@ -279,7 +296,7 @@ def front_branches(fn: ast.AST, own: str):
             if isinstance(s, ast.Raise):
                 return "reject", s.lineno
         for s in body:
-            if isinstance(s, ast.Expr) and isinstance(s.value, ast.Call) and "super()" in src(s.value):
+            if isinstance(s, ast.Expr) and isinstance(s.value, ast.Call) and "super()" in P.T(s.value):
                 return "delegate", s.lineno
         return None, body[0].lineno if body else 0
 
